@@ -91,7 +91,7 @@ def doc_table_part(chk, rng):
     names, a single-field message with that element is sent through the real pipe and must fill that column"""
     import gen_doctable
     try:
-        rows = [r for r in gen_doctable.parse(open(os.path.join(REPO, 'docs', 'protocols.md')).read()) if r[1] or r[2]]
+        rows = [r[:3] for r in gen_doctable.parse(open(os.path.join(REPO, 'docs', 'protocols.md')).read()) if r[1] or r[2]]
     except OSError:
         rows = []
     if not rows:
@@ -131,6 +131,7 @@ def run(chk):
     std_prepare(chk)
     run_streams(chk, me, STREAMS, {})
     doc_table_part(chk, random.Random(chk.seed * 31 + 88))
+    doc_column_part(chk, 'v5')
     rng = random.Random(chk.seed * 31 + 8)
     sw = sweep_lines(rng)
     bad = run_scope_b(chk, me, sw, 'sweep', {}, timeout=120.0)
